@@ -134,10 +134,10 @@ type Rec struct {
 	RespLast uint64 `json:"pl,omitempty"`
 
 	// worker-side fields ------------------------------------------
-	ConnID   int64  `json:"conn,omitempty"`   // rpc: id of the connection
-	DialBy   string `json:"dialby,omitempty"` // rpc: "cid/nid" of the dialing pool ("wire" for harness peers)
+	ConnID   int64  `json:"conn,omitempty"`    // rpc: id of the connection
+	DialBy   string `json:"dialby,omitempty"`  // rpc: "cid/nid" of the dialing pool ("wire" for harness peers)
 	DialFor  string `json:"dialfor,omitempty"` // rpc: "cid/nid" the dialer intended to reach
-	DiskTerm uint64 `json:"dterm,omitempty"`  // rpc vote: term file contents after the handler
+	DiskTerm uint64 `json:"dterm,omitempty"`   // rpc vote: term file contents after the handler
 	DiskVote uint64 `json:"dvote,omitempty"`
 	DiskOK   bool   `json:"dok,omitempty"`
 
@@ -150,14 +150,14 @@ type Rec struct {
 	Occ   int     `json:"occ,omitempty"`
 
 	// client / fsm
-	Cl   int    `json:"clt,omitempty"` // client id
-	Op   string `json:"op,omitempty"`  // update read dirty barrier | info snapshot changeconfig transfer waitstable
-	OpID int64  `json:"oid,omitempty"` // unique per operation
-	Val  string `json:"val,omitempty"` // update id
-	Pos  int64  `json:"pos,omitempty"` // position in fsm list
+	Cl   int    `json:"clt,omitempty"`  // client id
+	Op   string `json:"op,omitempty"`   // update read dirty barrier | info snapshot changeconfig transfer waitstable
+	OpID int64  `json:"oid,omitempty"`  // unique per operation
+	Val  string `json:"val,omitempty"`  // update id
+	Pos  int64  `json:"pos,omitempty"`  // position in fsm list
 	Last string `json:"last,omitempty"` // read: last id
-	H    uint64 `json:"hh,omitempty"`  // rolling hash of an id list
-	Kind string `json:"ek,omitempty"`  // error kind
+	H    uint64 `json:"hh,omitempty"`   // rolling hash of an id list
+	Kind string `json:"ek,omitempty"`   // error kind
 	Lost bool   `json:"lost,omitempty"`
 	Tgt  uint64 `json:"tgt,omitempty"`
 
